@@ -228,7 +228,7 @@ def unit_idxload(u):
     it = u.find_func(tree, "DataIndex.iteritems")
     u.note(it)
     ib = _strip(it.body)
-    want0 = ("if prefix:\n    item = self._trie.longest_prefix(prefix)\n    if item:\n        key, entry = item\n"
+    want0 = ("if prefix:\n    item = self._longest_prefix(prefix)\n    if item:\n        key, entry = item\n"
              "        self._load(key, entry)")
     want1 = ("for key, entry in self._trie.items(prefix=prefix, shallow=shallow):\n    self._load(key, entry)\n"
              "    yield (key, entry)")
@@ -251,11 +251,20 @@ def unit_idxload(u):
     gb = _strip(gi.body)
     want = ["item = self._trie.get(key)",
             "if item:\n    if item.meta is None:\n        item.meta = self._get_meta(key, item)\n    return item",
-            "lprefix = self._trie.longest_prefix(key)",
+            "lprefix = self._longest_prefix(key)",
             "if lprefix is not None:\n    dir_key, dir_entry = lprefix\n    self._load(dir_key, dir_entry)",
             "return self._trie[key]"]
     if [_u(s) for s in gb] != want:
         bad(f"DataIndex.__getitem__ changed: {[_u(s) for s in gb]}")
+    lp = u.find_func(tree, "DataIndex._longest_prefix")
+    u.note(lp)
+    if [_u(s) for s in _strip(lp.body)] != [
+            "item = self._trie.longest_prefix(key)",
+            "if not item and key:\n    root = self._trie.get(())\n    if root is not None:\n        return ((), root)",
+            "return item"]:
+        bad(f"DataIndex._longest_prefix changed: {[_u(s) for s in _strip(lp.body)]}")
+    o.append(f"(* {rel}:{lp.lineno} _longest_prefix: the trie's answer, else an entry at the root key (fix for the SQLite trie) *)\n"
+             "Definition longest_prefix_falls_back_to_root : bool := true.\n")
     o.append(f"(* {rel}:{it.lineno} iteritems; :{en.lineno} _ensure_loaded; :{ld_f.lineno} load; :{gi.lineno} __getitem__ *)\n"
              "Definition iter_loads_longest_prefix (prefix_nonempty : bool) : bool := prefix_nonempty.\n"
              "Definition iter_loads_each : bool := true.\n"
